@@ -124,6 +124,9 @@ struct Table {
     states: Vec<SpecObs>,
     #[serde(default)]
     patterns: Vec<PatSpec>,
+    /// long histories (TLC -simulate): ordered lists of equations; when present ONLY these are replayed
+    #[serde(default)]
+    traces: Vec<Vec<usize>>,
 }
 
 #[derive(Serialize, Clone)]
@@ -1057,11 +1060,16 @@ fn main() {
     for s in &table.states {
         states.insert(s.key.clone(), s.clone());
     }
-    let keys: Vec<Vec<usize>> = {
+    // jobs: (set of equations, order given by TLC's simulation or None = all orders)
+    let traces = table.traces.clone();
+    let keys: Vec<Vec<usize>> = if traces.is_empty() {
         let mut k: Vec<Vec<usize>> = states.keys().filter(|k| !k.is_empty()).cloned().collect();
         k.sort();
         k
+    } else {
+        traces.clone()
     };
+    let sim = !traces.is_empty();
     // bijections of the name pool and their action on the universe (orbit-least form of matches)
     let bijs: Vec<Vec<u32>> = if table.patterns.is_empty() { Vec::new() } else {
         perms(uni.n as usize).into_iter().map(|p| p.into_iter().map(|x| x as u32 + 1).collect()).collect()
@@ -1112,8 +1120,25 @@ fn main() {
                     let mut stats = Stats::default();
                     let k = key2.len();
                     let mut count = 0;
-                    'outer: for ord in orders(k) {
-                        for flips in 0..(1usize << k) {
+                    // long histories: the order TLC walked (every prefix has a specification state), with a few
+                    // orientations, plus shuffled orders (only their final state is compared)
+                    let ords: Vec<Vec<usize>> = if sim {
+                        let mut v: Vec<Vec<usize>> = vec![(0..k).collect(); 4];
+                        let mut x = (seed as u64 + 1).wrapping_mul(6364136223846793005).wrapping_add(key2.iter().sum::<usize>() as u64);
+                        for _ in 0..4 {
+                            let mut o: Vec<usize> = (0..k).collect();
+                            for i in (1..k).rev() { x = x.wrapping_mul(6364136223846793005).wrapping_add(1442695040888963407); o.swap(i, (x >> 33) as usize % (i + 1)); }
+                            v.push(o);
+                        }
+                        v
+                    } else { orders(k) };
+                    let mut flipseed = (seed as u64 + 7).wrapping_mul(2862933555777941757).wrapping_add(k as u64);
+                    'outer: for (oi, ord) in ords.into_iter().enumerate() {
+                        let flipset: Vec<usize> = if sim {
+                            flipseed = flipseed.wrapping_mul(6364136223846793005).wrapping_add(1442695040888963407);
+                            vec![match oi { 0 => 0, 1 => (1usize << k) - 1, _ => (flipseed >> 20) as usize % (1usize << k) }]
+                        } else { (0..(1usize << k)).collect() };
+                        for flips in flipset {
                             for mode in ["lazy", "eager"] {
                                 if mode == "eager" && (flips + ord[0]) % 3 != 0 {
                                     continue; // a third of the paths additionally with up-front insertion
@@ -1179,7 +1204,7 @@ fn main() {
                                 prop: prop.to_string(),
                                 what: if same_naming { "two linearisations of the same equations give different observations".into() } else { "two namings of the same history give different observations".into() },
                                 universe: ctx.uni.name.clone(),
-                                key: key.clone(),
+                                key: { let mut k = key.clone(); k.sort(); k },
                                 path: p.clone(),
                                 step: p.len(),
                                 naming: k.clone(),
